@@ -14,25 +14,61 @@ int valid_seteuid (object ob, string newuid) { return 1; }
 int valid_save_binary (string file) { return 1; }
 // ed: a file name that does not start with '/' is made absolute by the master
 string make_path_absolute (string s) { return "/d/" + s; }
+// ed: where the buffer of a user who went net-dead is saved (the harness sets the answer)
+string dead_name = "";
+void set_dead_name (string s) { dead_name = s; }
+string get_save_file_name (string file) {
+  VL ("ed_save_name [" + file + "] -> =[" + dead_name + "]");
+  return dead_name;
+}
 int valid_link (string from, string to) { if (!quiet) VL ("valid_link [" + from + "] [" + to + "]"); return 1; }
 
 void set_policy (string kind, string s, string q) { pol = kind; pstr = s; quiet = (q == "1"); }
 
+// re-entrant master: before answering, valid_read / valid_write call a file efun themselves
+private void nested_call (string g, string p) {
+  switch (g) {
+    case "read_file": read_file (p); break;
+    case "file_size": file_size (p); break;
+    case "write_file": write_file (p, "log\n"); break;
+    case "tail": tail (p); break;
+  }
+}
+
 private mixed verdict (string fn, string path, mixed who, string op) {
   mixed v;
-  string w, shown;
+  string w, shown, kind, kstr;
+  string *parts;
   int boom = 0;
-  switch (pol) {
+  kind = pol;
+  kstr = pstr;
+  if (who == this_object ()) {
+    // the nested call of the re-entrant master asks about its own access: granted, no further nesting
+    if (!quiet) VL (fn + " [" + path + "] " + file_name (who) + " " + op + " -> 1");
+    return 1;
+  }
+  if (pol == "nested") {
+    // pstr = "<efun>,<path>,<kind>[,<string>]"
+    parts = explode (pstr, ",");
+    if (sizeof (parts) >= 3) {
+      if (!quiet) VL ("ncall " + parts[0] + " " + file_name (this_object ()) + " [" + parts[1] + "]");
+      catch (nested_call (parts[0], parts[1]));
+      if (!quiet) VL ("nend");
+      kind = parts[2];
+      kstr = sizeof (parts) > 3 ? parts[3] : "";
+    } else kind = "allow";
+  }
+  switch (kind) {
     case "deny": v = 0; break;
     case "echo": v = path; break;
-    case "fixed": v = pstr; break;
+    case "fixed": v = kstr; break;
     case "ro": v = (fn == "valid_read"); break;
     case "wo": v = (fn == "valid_write"); break;
-    case "ropath": v = !(fn == "valid_write" && path == pstr); break;
+    case "ropath": v = !(fn == "valid_write" && path == kstr); break;
     case "raise": boom = 1; break;
-    case "raiseon": if (path == pstr) boom = 1; else v = 1; break;
+    case "raiseon": if (path == kstr) boom = 1; else v = 1; break;
     case "odd":
-      switch (pstr) {
+      switch (kstr) {
         case "array": v = ({ 1 }); break;
         case "emptyarray": v = ({ }); break;
         case "float": v = 1.5; break;
@@ -45,7 +81,7 @@ private mixed verdict (string fn, string path, mixed who, string op) {
     default: v = 1;
   }
   if (boom) shown = "raise";
-  else if (pol == "odd") shown = "odd:" + pstr;
+  else if (kind == "odd") shown = "odd:" + kstr;
   else shown = stringp (v) ? "=[" + v + "]" : "" + v;
   if (!quiet) {
     w = objectp (who) ? file_name (who) : "?";
